@@ -21,7 +21,7 @@ VARIABLES data, last
 
 \* instantiations (cfg files substitute these for the constants)
 AlphaC16 == {97, 233, 26085, 128512, 769}                     \* a  e-acute  CJK  astral  combining acute
-ArgsC16  == {<<>>, <<97>>, <<128512, 769>>, <<26085>>}
+ArgsC16  == {<<>>, <<97>>, <<128512, 769>>, <<26085>>, <<60>>}      \* (the last one is refused by a text node: a failing call changes nothing)
 OpsAll   == {"length", "data", "substring", "append", "insert", "delete", "replace", "split", "set"}
 OpsNoSplit == OpsAll \ {"split"}
 OpsMut   == {"append", "insert", "delete", "replace", "split", "set"}
